@@ -40,7 +40,7 @@ func shortenKey(key string) string {
 }
 
 func (p *Prog) newEntryState(e *Enc) *State {
-	st := &State{reach: True, cells: map[*ssa.Alloc]Val{}, heaps: map[string]Val{}, iters: map[ssa.Value]Val{}, lazy: map[string]bool{}}
+	st := &State{reach: True, cells: map[*ssa.Alloc]Val{}, heaps: map[string]Val{}, iters: map[ssa.Value]Val{}}
 	st.next = e.declare("next_0", SInt)
 	e.fact(Val{app("<=", fmt.Sprint(firstDynamicRef), "next_0"), SBool})
 	return st
@@ -216,6 +216,18 @@ func (p *Prog) VerifyFunction(fn *ssa.Function, fc *FuncContract, split *int, wa
 			}
 		}
 	}
+	var stableInv []*Clause
+	if isSetup {
+		// invariants scoped to other handlers of the package must be preserved by this setup
+		for _, cl := range pinv {
+			if sc := scopeTags(cl.Tags); len(sc) > 0 && !hasTag(cl.Tags, fn.Name()) && !hasTag(cl.Tags, "assumed") {
+				if !assumeReq(cl, pbind, p.CS.InitSpec[pkgPath]) {
+					return e
+				}
+				stableInv = append(stableInv, cl)
+			}
+		}
+	}
 	if len(tcs) > 0 {
 		// handlers run after a successful setup: the plugin invariants hold
 		for _, cl := range pinv {
@@ -334,7 +346,20 @@ func (p *Prog) VerifyFunction(fn *ssa.Function, fc *FuncContract, split *int, wa
 				if lab == "" {
 					lab = fmt.Sprintf("%d", i+1)
 				}
-				e.oblig(r.st, "post", "plugin-invariant:"+lab+"@"+rlabel, Implies(Eq(ITyp(r.results[1]), IntLit(0)), c), r.instr.Pos(), []string{"C19"}, cl)
+				e.oblig(r.st, "post", "plugin-invariant:"+lab+"@"+rlabel, Implies(Eq(ITyp(r.results[1]), IntLit(0)), c), r.instr.Pos(), propTags(cl.Tags, "C19"), cl)
+			}
+			for i, cl := range stableInv {
+				ec := &EvalCtx{e: e, st: r.st, old: fr.oldSt, fr: fr, bind: map[string]TV{}, spec: p.CS.InitSpec[pkgPath], atReturn: true}
+				c, err := ec.evalBool(cl.Expr)
+				if err != nil {
+					e.failed = fmt.Errorf("%s:%d: %v", cl.File, cl.Line, err)
+					return e
+				}
+				lab := cl.Label
+				if lab == "" {
+					lab = fmt.Sprintf("%d", i+1)
+				}
+				e.oblig(r.st, "post", "plugin-invariant-stable:"+lab+"@"+rlabel, c, r.instr.Pos(), propTags(cl.Tags, "C19"), cl)
 			}
 		}
 		for _, tc := range tcs {
@@ -564,10 +589,33 @@ func isSetupFunc(fn *ssa.Function) bool {
 	return strings.HasSuffix(nt.Obj().Pkg().Path(), "/handler") && (n == "Handler4" || n == "Handler6")
 }
 
+func isPropTag(t string) bool {
+	if len(t) < 3 || t[0] != 'C' {
+		return false
+	}
+	for _, c := range t[1:] {
+		if c < '0' || c > '9' {
+			return false
+		}
+	}
+	return true
+}
+
+// scopeTags: the function names an invariant is scoped to (property ids and keywords removed).
 func scopeTags(tags []string) []string {
 	var out []string
 	for _, t := range tags {
-		if t != "inductive" {
+		if t != "inductive" && t != "assumed" && !isPropTag(t) {
+			out = append(out, t)
+		}
+	}
+	return out
+}
+
+func propTags(tags []string, dflt string) []string {
+	out := []string{dflt}
+	for _, t := range tags {
+		if isPropTag(t) && t != dflt {
 			out = append(out, t)
 		}
 	}
